@@ -6,7 +6,7 @@
 //! per-line random layout (oracle: loaded records == generated records); the same with layouts
 //! that are legal but known to be mishandled (deviation classes, see `Dev`); targeted
 //! malformations of a valid zone (oracle: Err); random mutations, token soup and raw garbage
-//! (oracle: no panic); boundary family around the lexer's 4096-iteration cap.
+//! (oracle: no panic); boundary family around the lexer's former 4096-iteration cap (lines of 4085..5000 characters must load).
 
 use std::collections::BTreeSet;
 use std::io::Read;
@@ -1032,7 +1032,7 @@ fn malform(r: &mut Rng, origin: &GName) -> (Vec<u8>, &'static str, Option<&'stat
     (t, what, known)
 }
 
-/// boundary family for the 4096-iteration cap: one lexeme (comment, token, blank run, quoted
+/// boundary family for the former 4096-iteration cap (repaired in /repo 06f967f): one lexeme (comment, token, blank run, quoted
 /// string, parenthesised group) of a length around the cap inside a valid zone
 fn long_lexeme(r: &mut Rng, origin: &GName) -> (Vec<u8>, Option<Vec<GRec>>, usize) {
     let recs = gen_zone(r, origin);
@@ -1080,40 +1080,7 @@ fn long_lexeme(r: &mut Rng, origin: &GName) -> (Vec<u8>, Option<Vec<GRec>>, usiz
     (t, Some(recs), n)
 }
 
-/// longest stretch of text one next_token call may have to walk: a line, or a parenthesised group
-fn longest_run(text: &[u8]) -> usize {
-    let mut best = 0;
-    let mut cur = 0;
-    let mut depth = 0;
-    for &c in text {
-        cur += 1;
-        match c {
-            b'(' => depth = 1,
-            b')' => depth = 0,
-            b'\n' if depth == 0 => cur = 0,
-            _ => {}
-        }
-        best = best.max(cur);
-    }
-    best
-}
-
 // ---------------------------------------------------------------- cases
-
-fn registered_findings() -> BTreeSet<String> {
-    let mut s = BTreeSet::new();
-    let p = std::env::var("VP_KNOWN").unwrap_or_else(|_| "/verif/known_findings.json".into());
-    if let Ok(t) = std::fs::read_to_string(p) {
-        if let Ok(v) = serde_json::from_str::<serde_json::Value>(&t) {
-            for f in v["findings"].as_array().cloned().unwrap_or_default() {
-                if f["property"] == "C20" && f["status"].as_str().unwrap_or("open") == "open" {
-                    s.insert(f["id"].as_str().unwrap_or("").to_string());
-                }
-            }
-        }
-    }
-    s
-}
 
 fn origin_coq(o: Option<&GName>) -> String {
     match o {
@@ -1249,7 +1216,7 @@ fn build(seed: u64, index: u64) -> Built {
     }
 }
 
-fn case(seed: u64, index: u64, registered: &BTreeSet<String>) -> (CaseOut, Vec<&'static str>) {
+fn case(seed: u64, index: u64) -> (CaseOut, Vec<&'static str>) {
     let b = build(seed, index);
     let obs = run_impl(b.origin.as_ref(), &b.text);
     let coq = format!(
@@ -1262,15 +1229,10 @@ fn case(seed: u64, index: u64, registered: &BTreeSet<String>) -> (CaseOut, Vec<&
     // ---- the property evaluated directly on the implementation
     let mut fail: Option<String> = None;
     let mut classes = b.classes.clone();
-    let mut is_long = false;
     if obs.class == 3 {
+        // a panic is never inside a finding class (the lexer cap, former F2, is repaired)
         fail = Some(format!("implementation panicked: {}", obs.msg));
-        if longest_run(&b.text) > 2040 && obs.msg.contains("i < 4095") {
-            classes = vec!["C20-F2-lexer-cap-panic"];
-            is_long = true;
-        } else {
-            classes.clear();
-        }
+        classes.clear();
     } else if let Some(e) = &b.expect {
         if obs.class != 0 {
             fail = Some(format!("a well-formed zone was refused: {}", obs.msg));
@@ -1300,13 +1262,9 @@ fn case(seed: u64, index: u64, registered: &BTreeSet<String>) -> (CaseOut, Vec<&
         _ => None,
     };
     let hit: Vec<&'static str> = if fail.is_some() { classes.clone() } else { vec![] };
-    // unregistered finding classes are counted (extra.deviations) but not reported as failures
-    let (oracle_fail, known) = match (fail, known) {
-        (Some(f), Some(k)) if registered.contains(&k) => (Some(f), Some(k)),
-        (Some(_), Some(_)) => (None, None),
-        (f, _) => (f, None),
-    };
-    let _ = is_long;
+    // a failure inside a finding class is always reported, with the class id: whether that id is an
+    // accepted open finding is the driver's decision (known_findings.json), never the harness's
+    let (oracle_fail, known) = (fail, known);
     let text_in = format!(
         "origin={} text={}",
         b.origin.as_ref().map(|o| String::from_utf8_lossy(&o.labels.join(&b'.')).to_string() + ".").unwrap_or("-".into()),
@@ -1333,7 +1291,6 @@ fn case(seed: u64, index: u64, registered: &BTreeSet<String>) -> (CaseOut, Vec<&
 fn main() {
     quiet_panics();
     let args = parse_args();
-    let registered = registered_findings();
     if args.extra.contains_key("probe") {
         let mut buf = vec![];
         std::io::stdin().read_to_end(&mut buf).unwrap();
@@ -1353,7 +1310,7 @@ fn main() {
         return;
     }
     if let Some((seed, index)) = args.replay {
-        let (c, hit) = case(seed, index, &registered);
+        let (c, hit) = case(seed, index);
         println!("{}", c.text);
         println!("COQ {}", c.coq);
         if !hit.is_empty() {
@@ -1372,7 +1329,7 @@ fn main() {
     let mut devs: std::collections::BTreeMap<String, u64> = Default::default();
     let mut dev_example: std::collections::BTreeMap<String, String> = Default::default();
     for index in 0..args.n {
-        let (c, hit) = case(args.seed, index, &registered);
+        let (c, hit) = case(args.seed, index);
         if let Some(h) = hit.first() {
             *devs.entry(h.to_string()).or_default() += 1;
             dev_example.entry(h.to_string()).or_insert_with(|| c.text.chars().take(400).collect());
@@ -1380,7 +1337,7 @@ fn main() {
         cases.push(c);
     }
     for k in 0..corpus_files().len() {
-        let (c, hit) = case(args.seed, CORPUS_BASE + k as u64, &registered);
+        let (c, hit) = case(args.seed, CORPUS_BASE + k as u64);
         if let Some(h) = hit.first() {
             *devs.entry(h.to_string()).or_default() += 1;
             dev_example.entry(h.to_string()).or_insert_with(|| c.text.chars().take(400).collect());
@@ -1393,6 +1350,6 @@ fn main() {
         &args,
         &cases,
         "zone texts: record sets (A NS CNAME PTR MX TXT SOA; names with escaped dots, wildcard and underscore labels, boundary TTLs, strings with quotes/backslashes/blanks/Latin-1) printed by an independent master-file printer with per-line random layout (absolute/relative/@/inherited owner, TTL and class explicit or inherited in either order, TTL units, $ORIGIN/$TTL directives, comments, blank lines, CRLF, parentheses with line breaks and comments, quoted/unquoted strings, missing final newline); targeted malformations; 1-3 character mutations; token soup; raw garbage; lexemes around the 4096-iteration cap. Non-trivial = at least one complete line and 12 characters; distinct by (origin, text).",
-        serde_json::json!({"deviations_observed": devs, "deviation_examples": dev_example, "registered_finding_classes": registered}),
+        serde_json::json!({"deviations_observed": devs, "deviation_examples": dev_example}),
     );
 }
